@@ -7,6 +7,7 @@ Each native procedure is a function from the evaluated arguments (with the byte 
 argument, for diagnostics) and the state to a result. Argument casts are performed left to right, as
 the `std_function!` macro does; the first failing cast is the runtime error.
 -/
+set_option linter.unusedVariables false
 namespace Aplang
 
 def Native.all : List Native :=
@@ -90,25 +91,25 @@ def castStr (v : Value) (sp : Span) (σ : St) : Res Str :=
 /-- `Value::List`: the address and the current contents -/
 def castList (v : Value) (sp : Span) (σ : St) : Res (Nat × List Value) :=
   match v with
-  | .list a => (match getList σ a with | some vs => .ok (a, vs) | none => .panic "dangling list" σ)
+  | .list a => (match getList σ a with | some vs => .ok (a, vs) | none => .panic "dangling list" σ.out)
   | _ => castErr "LIST" sp σ
 def castMap (v : Value) (sp : Span) (σ : St) : Res (Nat × MapCell.AMap) :=
   match v with
   | .obj a => (match σ.heap[a]? with
       | some (.map m) => .ok (a, m)
       | some _ => .err ⟨"Invalid NATIVE_OBJECT variety for function", sp⟩ σ
-      | none => .panic "dangling object" σ)
+      | none => .panic "dangling object" σ.out)
   | _ => castErr "NATIVE_OBJECT" sp σ
 def castRobot (v : Value) (sp : Span) (σ : St) : Res (Nat × Robot.Robot) :=
   match v with
   | .obj a => (match σ.heap[a]? with
       | some (.robot r) => .ok (a, r)
       | some _ => .err ⟨"Invalid NATIVE_OBJECT variety for function", sp⟩ σ
-      | none => .panic "dangling object" σ)
+      | none => .panic "dangling object" σ.out)
   | _ => castErr "NATIVE_OBJECT" sp σ
 
 def mkList (σ : St) (vs : List Value) : Value × St :=
-  let (a, σ') := allocCell σ (.list vs); (.list a, σ')
+  (.list (allocCell σ (.list vs)).1, (allocCell σ (.list vs)).2)
 
 /-- src: io.rs `input`: show the prompt, read one line, `trim_end` -/
 def readInput (env : CharEnv) (prompt : Str) (σ : St) : Str × St :=
@@ -150,17 +151,41 @@ def boolV (b : Bool) : Value := .bool b
 
 /-- FS procedures whose result is a success flag -/
 def fsFlag (op : Fs.Tree → Str → Fs.Tree × Bool) (path : Str) (σ : St) : Res (Value × St) :=
-  let (t, ok) := op σ.world.fs path
-  .ok (.bool ok, { σ with world := { σ.world with fs := t } })
+  .ok (.bool (op σ.world.fs path).2, { σ with world := { σ.world with fs := (op σ.world.fs path).1 } })
 
-/-- src: the closure each `std_function!` expands to -/
-def callNative (env : CharEnv) (n : Native) (args : List Value) (spans : List Span) (σ : St) :
+/-- which module's source file a native procedure lives in -/
+inductive NGroup | core | math | string | map | io | style | time | robot | fs
+deriving DecidableEq, Repr
+
+def Native.group : Native → NGroup
+  | .display | .displayNoln | .input | .insert | .append | .remove | .length | .random => .core
+  | .sin | .cos | .tan | .asin | .acos | .atan | .atan2 | .sinh | .cosh | .tanh | .asinh | .acosh | .atanh
+  | .exp | .log | .log10 | .log2 | .round | .floor | .ceil | .int | .clamp | .pi | .e | .tau => .math
+  | .toNumber | .toBool | .split | .toUpper | .toLower | .trim | .contains | .replace | .startsWith | .endsWith
+  | .join | .substring | .toCharArray => .string
+  | .mapNew | .mapInsert | .mapGet | .mapContainsKey | .mapValues | .mapKeys => .map
+  | .inputPrompt | .format | .displayf => .io
+  | .style | .clearStyle => .style
+  | .time | .sleep => .time
+  | .robotMap | .moveFoward | .canMove | .moveForward | .rotateLeft | .rotateRight | .formatRobot | .formatRobotAscii => .robot
+  | .pathExists | .pathIsFile | .pathIsDirectory | .fileRemove | .fileCreate | .fileRead | .fileAppend
+  | .fileOverwrite | .directoryRead | .directoryCreate | .directoryCreateAll | .directoryRemove | .directoryRemoveAll => .fs
+
+/-- src: robot.rs MOVE_FORWARD / MOVE_FOWARD -/
+def moveRobot (v : Value) (s1 : Span) (σ : St) : Res (Value × St) :=
+  (castRobot v s1 σ).bind fun (a, rb) =>
+  match Robot.moveForward rb with
+  | .moved rb' res => .ok (.bool res, setCell σ a (.robot rb'))
+  | .blocked => .terminate "robot attempted to move into a wall" σ
+  | .panic site => .panic site σ.out
+
+def callCore (env : CharEnv) (n : Native) (args : List Value) (spans : List Span) (σ : St) :
     Res (Value × St) :=
   match n, args, spans with
   -- CORE (src: standard_library/mod.rs)
   | .display, [v], _ => (display σ v).bind fun s => .ok (.null, emit σ (s ++ ['\n']))
   | .displayNoln, [v], _ => (display σ v).bind fun s => .ok (.null, emit σ s)
-  | .input, [], _ => let (s, σ) := readInput env [] σ; .ok (.str s, σ)
+  | .input, [], _ => .ok (.str (readInput env [] σ).1, (readInput env [] σ).2)
   | .insert, [l, i, v], [s1, s2, _] =>
     (castList l s1 σ).bind fun (a, vs) => (castNum i s2 σ).bind fun i =>
     if i >= 1.0 && F64.toUSize i ≤ vs.length + 1 then
@@ -179,16 +204,19 @@ def callNative (env : CharEnv) (n : Native) (args : List Value) (spans : List Sp
     (match v with
      | .list a => (match getList σ a with
         | some vs => .ok (.num vs.length.toFloat, σ)
-        | none => .panic "dangling list" σ)
+        | none => .panic "dangling list" σ.out)
      | .str s => .ok (.num s.length.toFloat, σ)
      | _ => .ok (.null, σ))
   | .random, [a, b], [s1, s2] =>
     (castNum a s1 σ).bind fun a => (castNum b s2 σ).bind fun b =>
-    let lo := F64.toI64 a; let hi := F64.toI64 b
-    if lo > hi then .err ⟨"Invalid Range", s1⟩ σ else
-    let width := (hi - lo).toNat + 1
-    let (choice, rng) := match σ.world.rng with | c :: r => (c, r) | [] => (0, [])
-    .ok (.num (Float.ofInt (lo + (choice % width : Nat))), { σ with world := { σ.world with rng := rng } })
+    if F64.toI64 a > F64.toI64 b then .err ⟨"Invalid Range", s1⟩ σ else
+    .ok (.num (Float.ofInt (F64.toI64 a + (σ.world.rng.headD 0 % ((F64.toI64 b - F64.toI64 a).toNat + 1) : Nat))),
+         { σ with world := { σ.world with rng := σ.world.rng.tail } })
+  | _, _, _ => .panic "native: arity" σ.out
+
+def callMath (env : CharEnv) (n : Native) (args : List Value) (spans : List Span) (σ : St) :
+    Res (Value × St) :=
+  match n, args, spans with
   -- MATH (src: math.rs)
   | .atan2, [y, x], [s1, s2] =>
     (castNum y s1 σ).bind fun y => (castNum x s2 σ).bind fun x => .ok (.num (Float.atan2 y x), σ)
@@ -200,6 +228,16 @@ def callNative (env : CharEnv) (n : Native) (args : List Value) (spans : List Sp
   | .pi, [], _ => .ok (.num (mathConst .pi), σ)
   | .e, [], _ => .ok (.num (mathConst .e), σ)
   | .tau, [], _ => .ok (.num (mathConst .tau), σ)
+  | n, [v], [s1] =>
+    -- the one-argument procedures: the `f64` method each one names
+    (match math1 n with
+     | some f => (castNum v s1 σ).bind fun x => .ok (.num (f x), σ)
+     | none => .panic "native: arity" σ.out)
+  | _, _, _ => .panic "native: arity" σ.out
+
+def callString (env : CharEnv) (n : Native) (args : List Value) (spans : List Span) (σ : St) :
+    Res (Value × St) :=
+  match n, args, spans with
   -- STRING (src: strings.rs)
   | .toNumber, [v], [s1] => (castStr v s1 σ).bind fun s =>
     .ok ((match F64.parse s with | some x => .num x | none => .null), σ)
@@ -229,20 +267,29 @@ def callNative (env : CharEnv) (n : Native) (args : List Value) (spans : List Sp
     else .err ⟨"Invalid String Index", s2⟩ σ
   | .toCharArray, [v], [s1] => (castStr v s1 σ).bind fun s =>
     .ok (mkList σ ((StrOps.charsToStrs s).map Value.str))
+  | _, _, _ => .panic "native: arity" σ.out
+
+def callMap (env : CharEnv) (n : Native) (args : List Value) (spans : List Span) (σ : St) :
+    Res (Value × St) :=
+  match n, args, spans with
   -- MAP (src: map.rs)
-  | .mapNew, [], _ => let (a, σ) := allocCell σ (.map []); .ok (.obj a, σ)
+  | .mapNew, [], _ => .ok (.obj (allocCell σ (.map [])).1, (allocCell σ (.map [])).2)
   | .mapInsert, [m, k, v], [s1, _, _] =>
     (castMap m s1 σ).bind fun (a, mp) =>
-    let (mp', old) := MapCell.insert mp k v
-    .ok (old, setCell σ a (.map mp'))
+    .ok ((MapCell.insert mp k v).2, setCell σ a (.map (MapCell.insert mp k v).1))
   | .mapGet, [m, k], [s1, _] => (castMap m s1 σ).bind fun (_, mp) => .ok (MapCell.get mp k, σ)
   | .mapContainsKey, [m, k], [s1, _] =>
     (castMap m s1 σ).bind fun (_, mp) => .ok (.bool (MapCell.containsKey mp k), σ)
   | .mapValues, [m, _], [s1, _] => (castMap m s1 σ).bind fun (_, mp) => .ok (mkList σ (MapCell.values mp))
   | .mapKeys, [m, _], [s1, _] => (castMap m s1 σ).bind fun (_, mp) => .ok (mkList σ (MapCell.keys mp))
+  | _, _, _ => .panic "native: arity" σ.out
+
+def callIo (env : CharEnv) (n : Native) (args : List Value) (spans : List Span) (σ : St) :
+    Res (Value × St) :=
+  match n, args, spans with
   -- IO (src: io.rs)
   | .inputPrompt, [p], [s1] => (castStr p s1 σ).bind fun p =>
-    let (s, σ) := readInput env p σ; .ok (.str s, σ)
+    .ok (.str (readInput env p σ).1, (readInput env p σ).2)
   | .format, [f, l], [s1, s2] =>
     (castStr f s1 σ).bind fun f => (castList l s2 σ).bind fun (_, vs) =>
     (displayAll σ vs).bind fun parts =>
@@ -255,20 +302,35 @@ def callNative (env : CharEnv) (n : Native) (args : List Value) (spans : List Sp
     (match StrOps.formatBraces f parts with
      | some s => .ok (.null, emit σ (s ++ ['\n']))
      | none => .err ⟨"Incorrect Number Of Format Args", s2⟩ σ)
+  | _, _, _ => .panic "native: arity" σ.out
+
+def callStyle (env : CharEnv) (n : Native) (args : List Value) (spans : List Span) (σ : St) :
+    Res (Value × St) :=
+  match n, args, spans with
   -- STYLE (src: style.rs)
   | .style, [v], [s1] => (castStr v s1 σ).bind fun s =>
     (match styleTable.find? (fun e => e.1.toList == StrOps.toAsciiLower s) with
      | some (_, code) => .ok (.bool true, emit σ code.toList)
      | none => .ok (.bool false, σ))
   | .clearStyle, [], _ => .ok (.null, emit σ "\x1b[0m".toList)
+  | _, _, _ => .panic "native: arity" σ.out
+
+def callTime (env : CharEnv) (n : Native) (args : List Value) (spans : List Span) (σ : St) :
+    Res (Value × St) :=
+  match n, args, spans with
   -- TIME (src: time.rs)
   | .time, [], _ => .ok (.num σ.world.clock.toFloat, σ)
   | .sleep, [d], [s1] => (castNum d s1 σ).bind fun d =>
     .ok (.null, { σ with world := { σ.world with clock := σ.world.clock + F64.toU64 d } })
+  | _, _, _ => .panic "native: arity" σ.out
+
+def callRobot (env : CharEnv) (n : Native) (args : List Value) (spans : List Span) (σ : St) :
+    Res (Value × St) :=
+  match n, args, spans with
   -- ROBOT (src: robot.rs)
   | .robotMap, [v], [s1] => (castStr v s1 σ).bind fun s =>
     (match Robot.parse s with
-     | some r => let (a, σ) := allocCell σ (.robot r); .ok (.obj a, σ)
+     | some r => .ok (.obj (allocCell σ (.robot r)).1, (allocCell σ (.robot r)).2)
      | none => .ok (.null, σ))
   | .canMove, [r, d], [s1, s2] =>
     (castRobot r s1 σ).bind fun (_, rb) => (castStr d s2 σ).bind fun d =>
@@ -281,6 +343,13 @@ def callNative (env : CharEnv) (n : Native) (args : List Value) (spans : List Sp
     .ok (.null, setCell σ a (.robot (Robot.rotateRight rb)))
   | .formatRobot, [r], [s1] => (castRobot r s1 σ).bind fun (_, rb) => .ok (.str (Robot.fmtUnicode rb), σ)
   | .formatRobotAscii, [r], [s1] => (castRobot r s1 σ).bind fun (_, rb) => .ok (.str (Robot.fmtAscii rb), σ)
+  | .moveForward, [v], [s1] => moveRobot v s1 σ
+  | .moveFoward, [v], [s1] => moveRobot v s1 σ
+  | _, _, _ => .panic "native: arity" σ.out
+
+def callFs (env : CharEnv) (n : Native) (args : List Value) (spans : List Span) (σ : St) :
+    Res (Value × St) :=
+  match n, args, spans with
   -- FS (src: file_system.rs)
   | .pathExists, [p], [s1] => (castStr p s1 σ).bind fun p => .ok (.bool (Fs.existsS σ.world.fs p), σ)
   | .pathIsFile, [p], [s1] => (castStr p s1 σ).bind fun p => .ok (.bool (Fs.isFileS σ.world.fs p), σ)
@@ -301,18 +370,20 @@ def callNative (env : CharEnv) (n : Native) (args : List Value) (spans : List Sp
   | .directoryCreateAll, [p], [s1] => (castStr p s1 σ).bind fun p => fsFlag Fs.dirCreateAll p σ
   | .directoryRemove, [p], [s1] => (castStr p s1 σ).bind fun p => fsFlag Fs.dirRemove p σ
   | .directoryRemoveAll, [p], [s1] => (castStr p s1 σ).bind fun p => fsFlag Fs.dirRemoveAll p σ
-  | n, [v], [s1] =>
-    -- remaining one-argument procedures: MATH and the two robot moves
-    (match math1 n with
-     | some f => (castNum v s1 σ).bind fun x => .ok (.num (f x), σ)
-     | none =>
-       if n == .moveForward || n == .moveFoward then
-         (castRobot v s1 σ).bind fun (a, rb) =>
-         match Robot.moveForward rb with
-         | .moved rb' res => .ok (.bool res, setCell σ a (.robot rb'))
-         | .blocked => .terminate "robot attempted to move into a wall" σ
-         | .panic site => .panic site σ
-       else .panic "native: arity" σ)
-  | _, _, _ => .panic "native: arity" σ
+  | _, _, _ => .panic "native: arity" σ.out
+
+/-- src: the closure each `std_function!` expands to -/
+def callNative (env : CharEnv) (n : Native) (args : List Value) (spans : List Span) (σ : St) :
+    Res (Value × St) :=
+  match n.group with
+  | .core => callCore env n args spans σ
+  | .math => callMath env n args spans σ
+  | .string => callString env n args spans σ
+  | .map => callMap env n args spans σ
+  | .io => callIo env n args spans σ
+  | .style => callStyle env n args spans σ
+  | .time => callTime env n args spans σ
+  | .robot => callRobot env n args spans σ
+  | .fs => callFs env n args spans σ
 
 end Aplang
